@@ -561,13 +561,23 @@ def _s3_s4(program, model, res, s3="C06-S3", s4="C06-S4"):
 
 
 # ---------------------------------------------------------------------------------------------- S5
-def _eval_none_expr(e: ast.AST, limit_is_none: bool):
+_NOT_NONE = object()
+
+
+def _eval_none_expr(e: ast.AST, limit_is_none, value=_NOT_NONE):
+    """the truth of a condition over self.limit; `value` (None, 0, a positive count) is used where the expression asks for the limit's own truth value"""
+    if value is _NOT_NONE:
+        value = None if limit_is_none else 5
     if isinstance(e, ast.Constant):
         return bool(e.value)
+    if isinstance(e, ast.Attribute) and unparse(e) == "self.limit":
+        return bool(value)  # truthiness of the limit itself: None and 0 are both false
+    if isinstance(e, ast.Call) and dotted_name(e.func) == "bool" and len(e.args) == 1:
+        return _eval_none_expr(e.args[0], limit_is_none, value)
     if isinstance(e, ast.UnaryOp) and isinstance(e.op, ast.Not):
-        return not _eval_none_expr(e.operand, limit_is_none)
+        return not _eval_none_expr(e.operand, limit_is_none, value)
     if isinstance(e, ast.BoolOp):
-        vals = [_eval_none_expr(x, limit_is_none) for x in e.values]
+        vals = [_eval_none_expr(x, limit_is_none, value) for x in e.values]
         return all(vals) if isinstance(e.op, ast.And) else any(vals)
     if isinstance(e, ast.Compare) and len(e.ops) == 1 and unparse(e.left) == "self.limit" \
             and isinstance(e.comparators[0], ast.Constant) and e.comparators[0].value is None:
@@ -591,7 +601,12 @@ def _s5(program, model, res):
         if c.name == "OrderRowsNode":
             t = _eval_none_expr(e, True)
             fz = _eval_none_expr(e, False)
-            if t is True and fz is False:
+            zero = _eval_none_expr(e, False, 0)
+            if t is True and fz is False and zero is True:
+                res.fail_at("C06-S5", m, "order-rows-trivial-at-limit-0",
+                            f"returns `{unparse(e)}`, the truth value of the limit: limit=0 (legal: every executor returns no rows) counts as no limit, so order_rows(['x'], limit=0) "
+                            f"followed by any step is dropped from the pipeline and all rows come back", rets[0])
+            elif t is True and fz is False:
                 res.ok("C06-S5", "OrderRowsNode is trivial when intermediate exactly when limit is None")
             else:
                 res.fail_at("C06-S5", m, "order-rows-trivial",
